@@ -5,7 +5,14 @@ Tie: Model/Codebase.lean (driver op `codebase`, `pathfn`) is compared with the r
 object AND on `json.loads(ReportWriter(Report(cb)).to_json())["codebase"]`. The thresholds inside
 the model are the generated `Gen/Logic.lean` (regenerated here).
 Oracle: every number the property talks about is recomputed from the input list alone (no code
-shared with codelimit or with the model) and compared with the real object."""
+shared with codelimit or with the model) and compared with the real object.
+
+Beyond the random path sets: SIZE LADDERS (folders 10^2 .. 10^5 flat and nested, in folder-by-folder,
+file-name-by-file-name, reversed and shuffled insertion orders; nesting depth; files in one folder;
+measurements in one file), UNUSUAL UNICODE components (not fixed under NFC / NFD / NFKC / NFKD, case pairs,
+line separators, BOM ...) together with their twin spellings in the same folder, STATE PROBES (the same list
+built a second time in the same process after the first codebase was modified; the same entry objects added to
+two codebases) and CONFIGURATION variants (Configuration.repository / exclude / verbose set)."""
 import itertools
 import os
 import sys
@@ -14,6 +21,7 @@ sys.path.insert(0, os.path.dirname(os.path.dirname(os.path.abspath(__file__))))
 sys.path.insert(0, os.path.join(os.path.dirname(os.path.dirname(os.path.dirname(os.path.abspath(__file__)))), "translator"))
 import common
 import logic
+import h4_support as h4
 
 ID = "C07"
 TRUSTED = [
@@ -207,7 +215,7 @@ def oracle(files, s):
         exp_entries = sorted([(0, last_name(f[0])) for f in files if parent_key(f[0]) == k] +
                              [(1, last_name(k2[:-1]) + "/") for k2 in keys if k2 != "./" and parent_key(k2[:-1]) == k])
         if sorted(entries) != exp_entries:
-            bad.append("entries of %r: %r, required %r" % (k, sorted(entries), exp_entries))
+            bad.append("entries of %s: %s, required %s" % (ascii(k), ascii(sorted(entries)), ascii(exp_entries)))
         # 3. folder profile
         under = [f for f in files if k == "./" or f[0].startswith(k)]
         exp = [sum(prof(f[3])[i] for f in under) for i in range(4)]
@@ -223,6 +231,123 @@ def oracle(files, s):
     if len(root) != 1 or list(root[0][2]) != prof(allms):
         bad.append("root profile %r != whole codebase %r" % (root and root[0][2], prof(allms)))
     return bad
+
+
+def oracle_fast(files, s):
+    """the same clauses as `oracle`, recomputed in time linear in the input (dictionaries instead of scans) so that
+    the size ladders are affordable; independent of codelimit and of the model"""
+    bad = []
+    # 1. per-language totals
+    exp_tot = {}
+    for (p, L, loc, ms) in files:
+        t = exp_tot.setdefault(L, [0, 0, 0, 0, 0])
+        t[0] += 1; t[1] += loc; t[2] += len(ms)
+        t[3] += sum(1 for v in ms if cat(v) == 2); t[4] += sum(1 for v in ms if cat(v) == 3)
+    got = {}
+    for t in s["totals"]:
+        if t[0] in got:
+            bad.append("language %r listed twice" % (t[0],))
+        got[t[0]] = list(t[1:])
+    if got != exp_tot:
+        diff = [L for L in set(got) | set(exp_tot) if got.get(L) != exp_tot.get(L)]
+        bad.append("totals differ for %r: %r, required %r" % (diff[:3], [got.get(L) for L in diff[:3]], [exp_tot.get(L) for L in diff[:3]]))
+    if "live" in s and sorted(s["live"]) != sorted((t[0],) + tuple(t[1:]) for t in s["totals"]):
+        bad.append("totals collected by a fresh ScanTotals().add(...) differ from the codebase totals")
+    # 2. file data
+    gotf = {}
+    for f in s["files"]:
+        gotf[f[0]] = f
+    if len(s["files"]) != len(files) or set(gotf) != {f[0] for f in files}:
+        bad.append("files keys differ (%d listed, %d added)" % (len(s["files"]), len(files)))
+    for (p, L, loc, ms) in files:
+        g = gotf.get(p)
+        if g is not None and (list(g[3]) != prof(ms) or sum(g[3]) != sum(ms) or g[1] != L or g[2] != loc or list(g[4]) != list(ms)):
+            bad.append("file %r: %r, required profile %r" % (p, g[:4], prof(ms)))
+            break
+    # 5 + 3. the tree: keys, entries, profiles
+    exp_entries = {"./": []}
+    exp_prof = {"./": [0, 0, 0, 0]}
+    for (p, _, _, ms) in files:
+        pr = prof(ms)
+        ks = ["./"] + [p[:i + 1] for i, c in enumerate(p) if c == "/"]
+        for k in set(ks):
+            if k not in exp_prof:
+                exp_prof[k] = [0, 0, 0, 0]
+                exp_entries[k] = []
+            q = exp_prof[k]
+            for i in range(4):
+                q[i] += pr[i]
+    for k in list(exp_entries):
+        if k != "./":
+            exp_entries[parent_key(k[:-1])].append((1, last_name(k[:-1]) + "/"))
+    for (p, _, _, _) in files:
+        exp_entries[parent_key(p)].append((0, last_name(p)))
+    gotk = [t[0] for t in s["tree"]]
+    if len(gotk) != len(set(gotk)) or set(gotk) != set(exp_entries):
+        extra = sorted(set(gotk) - set(exp_entries))[:3]
+        missing = sorted(set(exp_entries) - set(gotk))[:3]
+        bad.append("tree keys differ: %d listed, %d required; extra %r missing %r" % (len(gotk), len(exp_entries), extra, missing))
+    nbad = 0
+    for (k, entries, pr) in s["tree"]:
+        if k not in exp_entries:
+            continue
+        if sorted(entries) != sorted(exp_entries[k]):
+            nbad += 1
+            if nbad <= 2:
+                from collections import Counter
+                g, e = Counter(entries), Counter(exp_entries[k])
+                bad.append("entries of %s: listed but not required %s, required but not listed %s (1 = folder, 0 = file)"
+                           % (ascii(k), ascii(sorted((g - e).elements())[:6]), ascii(sorted((e - g).elements())[:6])))
+        if list(pr) != exp_prof[k]:
+            nbad += 1
+            if nbad <= 2:
+                bad.append("profile of %r: %r, required %r" % (k, pr, exp_prof[k]))
+    if nbad > 2:
+        bad.append("... %d folder entries/profiles wrong in all" % nbad)
+    # 4. grand totals
+    allms = [v for f in files for v in f[3]]
+    exp = [len(files), len(allms), sum(f[2] for f in files), sum(1 for v in allms if cat(v) == 2), sum(1 for v in allms if cat(v) == 3),
+           sum(allms)] + prof(allms)
+    if list(s["grand"]) != exp:
+        bad.append("grand totals %r, required %r" % (s["grand"], exp))
+    root = [t for t in s["tree"] if t[0] == "./"]
+    if len(root) != 1 or list(root[0][2]) != prof(allms):
+        bad.append("root profile %r != whole codebase %r" % (root and root[0][2], prof(allms)))
+    return bad
+
+
+def run_real_big(files):
+    """object snapshot + the compact JSON rendering only (large inputs): -> (reply line, snapshot | None, json agrees?)"""
+    import json
+    lim = sys.getrecursionlimit()
+    try:
+        sys.setrecursionlimit(max(lim, 1200))
+        try:
+            cb = build_real(files, 1)
+        finally:
+            sys.setrecursionlimit(lim)
+    except KeyError:
+        return "err 7", None, True
+    except RecursionError:
+        return "err 6", None, True
+    s = snap_object(cb)
+    from codelimit.common.report.Report import Report
+    from codelimit.common.report.ReportWriter import ReportWriter
+    doc = json.loads(ReportWriter(Report(cb), False).to_json())["codebase"]
+    j = {
+        "totals": [(k, t["files"], t["lines_of_code"], t["functions"], t["hard_to_maintain"], t["unmaintainable"]) for k, t in doc["totals"].items()],
+        "tree": [(k, [(1 if n.endswith("/") else 0, n) for n in f["entries"]], f["profile"]) for k, f in doc["tree"].items()],
+        "files": [(k, e["language"], e["loc"], e["profile"], [m["value"] for m in e["measurements"]]) for k, e in doc["files"].items()],
+    }
+    same = (j["totals"] == [tuple(t) for t in s["totals"]] and j["tree"] == [(k, es, pr) for k, es, pr in s["tree"]]
+            and j["files"] == [(k, l, c, p, m) for k, l, c, p, m in s["files"]])
+    return fmt_main(s) + fmt_extra(s), s, same
+
+
+def fails_oracle(files):
+    """does the real code violate the property on this list? (used for shrinking)"""
+    _, snap, same = run_real_big(files)
+    return snap is None or not same or bool(oracle_fast(files, snap))
 
 
 # ------------------------------------------------------------------ generators
@@ -292,6 +417,196 @@ def small_sets(rnd, count, size):
     return out
 
 
+# ------------------------------------------------------------------ size ladders, unusual names, probes
+
+def small_meta(rnd, i):
+    lang = LANGS[i % 3] if rnd.random() < 0.8 else rnd.choice(LANGS)
+    ms = [rnd.choice(BOUNDARY) if rnd.random() < 0.6 else rnd.randint(1, 90) for _ in range(rnd.choice([0, 1, 1, 2]))]
+    return lang, sum(ms) + rnd.randint(0, 9), ms
+
+
+def folder_name(i, n, nested):
+    """the i-th of n folders: flat `p0042`, or nested by decimal digits `t4/t42/p0042` (shared prefixes at every level)"""
+    w = len(str(n - 1))
+    s = str(i).zfill(w)
+    if not nested:
+        return "p" + s
+    return "/".join(["t" + s[:k] for k in range(1, w)] + ["p" + s])
+
+
+ORDERS = ["by-folder", "by-name", "by-name-reversed", "shuffled"]
+
+
+def gen_folder_ladder(rnd, n, nested, order, per_folder=2):
+    """n folders x per_folder files, in one of the insertion orders: folder by folder (os.walk), file name by file
+    name (every folder is revisited after all the others), the same backwards, shuffled"""
+    names = ["__init__.py", "impl.py", "util.c", "x.java"][:per_folder]
+    cells = [(i, j) for i in range(n) for j in range(per_folder)]
+    if order == "by-name":
+        cells.sort(key=lambda c: (c[1], c[0]))
+    elif order == "by-name-reversed":
+        cells.sort(key=lambda c: (c[1], -c[0]))
+    elif order == "shuffled":
+        rnd.shuffle(cells)
+    return [(folder_name(i, n, nested) + "/" + names[j],) + small_meta(rnd, j) for i, j in cells]
+
+
+def gen_depth_ladder(rnd, depth, order):
+    """one chain of `depth` folders with a file at every level (and two at some), inserted shallow-first, deep-first or shuffled"""
+    comps = [rnd.choice(["a", "b", "src", "x.py"]) for _ in range(depth)]
+    files = []
+    for d in range(depth + 1):
+        pre = "/".join(comps[:d])
+        files.append(((pre + "/" if pre else "") + "f%d.py" % d,) + small_meta(rnd, d))
+    if order == "deep-first":
+        files.reverse()
+    elif order == "shuffled":
+        rnd.shuffle(files)
+    return files
+
+
+def gen_wide_folder(rnd, n):
+    files = [("wide/f%07d.py" % i,) + small_meta(rnd, i) for i in range(n)]
+    rnd.shuffle(files)
+    return files + [("wide.py",) + small_meta(rnd, 0)]
+
+
+def gen_many_measurements(rnd, n):
+    ms = [rnd.choice(BOUNDARY) if rnd.random() < 0.5 else rnd.randint(1, 100) for _ in range(n)]
+    return [("big/one.py", "Python", sum(ms), ms), ("two.py", "C", 3, [3])]
+
+
+def gen_unusual(rnd):
+    """path sets whose components come from h4.unusual_names (+ a few plain ones), with the twin spellings (other normal
+    forms, other case) of some names next to them in the same folder"""
+    names = h4.unusual_names(rnd, 14) + ["src", "a"]
+    n = rnd.randint(1, 9)
+    paths = []
+    tries = 0
+    while len(paths) < n and tries < 100:
+        tries += 1
+        d = rnd.choice([0, 0, 1, 1, 2, 3])
+        comps = [rnd.choice(names) for _ in range(d + 1)]
+        p = "/".join(comps)
+        if p.startswith("./") or p in paths:
+            continue
+        paths.append(p)
+        if rnd.random() < 0.5:
+            alts = h4.twins(comps[-1])
+            if alts:
+                q = "/".join(comps[:-1] + [rnd.choice(alts)])
+                if q not in paths:
+                    paths.append(q)
+        if d and rnd.random() < 0.25:
+            alts = h4.twins(comps[0])
+            if alts:
+                q = "/".join([rnd.choice(alts)] + comps[1:])
+                if q not in paths:
+                    paths.append(q)
+    rnd.shuffle(paths)
+    return [(p,) + gen_meta(rnd, 3) for p in paths]
+
+
+def second_build_probe(files):
+    """STATE PROBE: build the list, modify the first codebase (more files, another aggregate, emptied tree), build the
+    SAME list again in the same process, and add the same entry objects to a third codebase: every build must give the
+    same snapshot. -> (list of reasons, snapshot of the second build | None)"""
+    from codelimit.common.Codebase import Codebase
+    bad = []
+    try:
+        cb1 = build_real(files, 1)
+        s1 = snap_object(cb1)
+        first = fmt_main(s1) + fmt_extra(s1)
+        from codelimit.common.SourceFileEntry import SourceFileEntry
+        cb1.add_file(SourceFileEntry("zz-probe/extra/q.py", "x", "Probe", 7, []))
+        for (p, lang, loc, ms) in files[:2]:
+            cb1.add_file(SourceFileEntry(p + ".again", "x", lang, loc, []))
+        cb1.aggregate()
+        cb1.tree.clear(); cb1.totals.clear()
+        cb2 = build_real(files, 1)
+        s2 = snap_object(cb2)
+        second = fmt_main(s2) + fmt_extra(s2)
+        if second != first:
+            bad.append("the same list built a second time in the same process (after the first codebase was modified) gives a different codebase")
+        cb3 = Codebase("/other")
+        for e in cb2.files.values():
+            cb3.add_file(e)
+        cb3.aggregate()
+        s3 = snap_object(cb3)
+        if fmt_main(s3) + fmt_extra(s3) != first:
+            bad.append("the same entry objects added to another codebase give a different codebase")
+        if fmt_main(snap_object(cb2)) != fmt_main(s2):
+            bad.append("the second codebase changed while a third was built from its entries")
+        return bad, s2
+    except (KeyError, RecursionError) as e:
+        return ["%s raised" % type(e).__name__], None
+
+
+def drive_each(lines, workers=12):
+    """one driver process per request, in parallel (the model's folder map is a list: quadratic in the number of folders)"""
+    from concurrent.futures import ThreadPoolExecutor
+    if not lines:
+        return []
+    with ThreadPoolExecutor(max_workers=workers) as ex:
+        return [r[0] for r in ex.map(lambda l: common.run_driver([l]), lines)]
+
+
+def ladder_cases(ctx):
+    """-> list of (stream, label, files, compare with the model?)"""
+    rnd = ctx.rng("ladders")
+    out = []
+    model_max = ctx.pick(1000, 3162)
+    for n in ctx.pick([100, 316, 1000, 3162], [100, 316, 1000, 3162, 10 ** 4, 31623, 10 ** 5]):
+        combos = [(nested, order) for nested in (False, True) for order in ORDERS]
+        if n > 1000:
+            combos = rnd.sample(combos, ctx.pick(3, 4)) if n < 10 ** 5 else [(False, "by-name"), (True, "shuffled")]
+        # the model's folder map is a list (quadratic): above 316 folders only a sample of the combinations goes to the driver
+        with_model = set(range(len(combos))) if n <= 316 else set(rnd.sample(range(len(combos)), min(len(combos), ctx.pick(3, 8))))
+        for ci, (nested, order) in enumerate(combos):
+            out.append(("ladder-folders", "%d folders %s %s" % (n, "nested" if nested else "flat", order),
+                        gen_folder_ladder(rnd, n, nested, order, 2 if n > 316 else rnd.choice([2, 3])), n <= model_max and ci in with_model))
+    for depth in ctx.pick([10, 50, 150], [10, 50, 150, 300, 600]):
+        for order in ("shallow-first", "deep-first", "shuffled"):
+            out.append(("ladder-depth", "depth %d %s" % (depth, order), gen_depth_ladder(rnd, depth, order), depth <= 150))
+    for n in ctx.pick([100, 1000, 10 ** 4], [100, 1000, 10 ** 4, 10 ** 5]):
+        out.append(("ladder-files-in-folder", "%d files in one folder" % n, gen_wide_folder(rnd, n), n <= 1000))
+    for n in ctx.pick([100, 1000, 10 ** 4, 10 ** 5], [100, 1000, 10 ** 4, 10 ** 5, 10 ** 6]):
+        out.append(("ladder-measurements", "%d measurements in one file" % n, gen_many_measurements(rnd, n), n <= 10 ** 4))
+    return out
+
+
+def run_ladders(ctx, dis, fails, dist):
+    cases = ladder_cases(ctx)
+    reqs = [request(fs, 1) for (_, _, fs, with_model) in cases if with_model]
+    replies = iter(drive_each(reqs))
+    n = 0
+    for stream, label, fs, with_model in cases:
+        n += 1
+        dist[stream] = dist.get(stream, 0) + 1
+        impl, snap, same = run_real_big(fs)
+        inp = {"stream": stream, "label": label, "files": [list(f) for f in fs], "naggr": 1}
+        small = {"stream": stream, "label": label, "files": "%d files (%s ... %s)" % (len(fs), fs[0][0], fs[-1][0]), "naggr": 1}
+        if with_model:
+            m = next(replies)
+            if m != impl:
+                k = next((i for i, (a, b) in enumerate(zip(m, impl)) if a != b), 0)
+                dis.append({"stream": stream, "input": small, "model": m[max(0, k - 80):k + 80], "impl": impl[max(0, k - 80):k + 80]})
+        bad = ["raises (%s)" % impl] if snap is None else oracle_fast(fs, snap)
+        if snap is not None and not same:
+            bad.append("the report's JSON codebase section differs from the object")
+        if bad:
+            nshrunk = sum(1 for f in fails if "shrunk" in str(f["input"].get("label")))
+            shrunk = h4.ddmin_list(fs, fails_oracle, budget_s=ctx.pick(6.0, 30.0)) if nshrunk < 2 else fs
+            if len(shrunk) < len(fs):
+                _, snap2, same2 = run_real_big(shrunk)
+                bad2 = ["raises"] if snap2 is None else oracle_fast(shrunk, snap2) + ([] if same2 else ["JSON differs from the object"])
+                if bad2:
+                    inp = {"stream": stream, "label": label + " (shrunk from %d files)" % len(fs), "files": [list(f) for f in shrunk], "naggr": 1}
+                    bad = bad2
+            fails.append({"input": inp, "observed": bad[:4], "required": "C07 (recomputed from the input)"})
+    return n
+
+
 # ------------------------------------------------------------------ check
 
 def compare(stream, files, naggr, model, check_oracle, dis, fails):
@@ -333,11 +648,38 @@ def correspond(ctx):
         cases.append(("malformed", fs, 1, in_domain(fs)))
     cases.append(("malformed", [("././x", "C", 1, [1])], 1, False))
     cases.append(("malformed", [("./a/x", "C", 1, [20]), ("a/y", "C", 1, [40])], 1, False))
+    rnd = ctx.rng("unusual-names")
+    for _ in range(ctx.pick(600, 8000)):
+        fs = gen_unusual(rnd)
+        cases.append(("unusual-names", fs, 1, in_domain(fs)))
+    rnd = ctx.rng("configured")
+    cfg_for = {}
+    for _ in range(ctx.pick(150, 2000)):
+        fs = gen_unusual(rnd) if rnd.random() < 0.3 else gen_files(rnd)
+        label, kw = rnd.choice(h4.config_variants([f[0] for f in fs], rnd))
+        cfg_for[len(cases)] = kw
+        cases.append(("configured", fs, 1, in_domain(fs)))
+    probe_at = set()
+    rnd = ctx.rng("second-build")
+    for _ in range(ctx.pick(300, 4000)):
+        probe_at.add(len(cases))
+        cases.append(("second-build", gen_unusual(rnd) if rnd.random() < 0.2 else gen_files(rnd), 1, True))
     replies = common.run_driver_sharded([request(fs, k) for (_, fs, k, _) in cases])
     samples = []
     dist = {}
-    for (stream, fs, k, orc), m in zip(cases, replies):
-        impl = compare(stream, fs, k, m, orc, dis, fails)
+    for ci, ((stream, fs, k, orc), m) in enumerate(zip(cases, replies)):
+        if ci in cfg_for:
+            with h4.configured(**cfg_for[ci]):
+                impl = compare(stream, fs, k, m, orc, dis, fails)
+        else:
+            impl = compare(stream, fs, k, m, orc, dis, fails)
+        if ci in probe_at:
+            bad, s2 = second_build_probe(fs)
+            if s2 is not None:
+                bad += oracle(fs, s2)
+            if bad:
+                fails.append({"input": {"stream": "second-build", "files": [list(f) for f in fs], "naggr": 1}, "observed": bad[:4],
+                              "required": "C07 on every build of the same list in one process"})
         dist[stream] = dist.get(stream, 0) + 1
         if len(fs) >= 2 and any("/" in f[0] for f in fs):
             nontrivial.add(request(fs, k))
@@ -350,12 +692,21 @@ def correspond(ctx):
         i = "ok %s %s" % (enc_str(get_parent_folder(s)), enc_str(get_basename(s)))
         if m != i:
             dis.append({"stream": "pathfn", "input": {"stream": "pathfn", "path": s}, "model": m, "impl": i})
+    n_ladder = run_ladders(ctx, dis, fails, dist)
+    if not h4.configuration_is_default():
+        dis.append({"stream": "configured", "input": {"stream": "configured"}, "model": "default configuration restored", "impl": "configuration left modified"})
     return {
-        "evaluations": len(cases) + len(strs), "distinct_nontrivial": len(nontrivial),
+        "evaluations": len(cases) + len(strs) + n_ladder, "distinct_nontrivial": len(nontrivial),
         "rule": "random duplicate-free path sets (0..12 files, depth <= 6, 2..5 component names so prefixes are shared and files/folders clash in name, "
                 "1..6 languages, 0..8 measurements per file with lengths concentrated on 14..17/29..32/59..62 plus 1..200) through add_file*+aggregate, "
                 "compared on the object, on pretty and on compact JSON, and against the recomputed numbers; every insertion order of 4- and 5-element sets; "
                 "0/2/3 aggregate calls and malformed paths (duplicates, absolute, './x', '././x', empty components) model-vs-code only; "
+                "unusual-names: components not fixed under NFC/NFD/NFKC/NFKD (decomposed accents, U+212B, U+2126, compatibility forms, jamo), case pairs, "
+                "U+000C/U+0085/U+2028, BOM, zero-width, with their twin spellings in the same folder; configured: the same under Configuration.repository / "
+                "exclude (patterns matching the paths, negation) / verbose; second-build: the list built twice in one process with the first codebase "
+                "modified in between, and the entry objects shared with a third codebase; size ladders (object + compact JSON + linear-time oracle, model up "
+                "to 316 folders for every combination and for 3 combinations at 1000 quick / all up to 3162 thorough): 10^2..3162 (thorough ..10^5) folders flat / nested by digits x folder-by-folder / by-file-name / "
+                "reversed / shuffled insertion, depth 10/50/150 (thorough 300, 600), 10^2..10^4 (10^5) files in one folder, 10^2..10^5 (10^6) measurements in one file; "
                 "non-trivial = distinct inputs with >= 2 files and at least one folder",
         "samples": samples, "exhaustive": False, "distribution": dist,
         "disagreements": dis[:50], "oracle_failures": fails[:50],
@@ -377,6 +728,7 @@ def search(ctx, hints):
     cands = [h["files"] for h in hints if h and "files" in h and h.get("naggr", 1) == 1]
     cands = [[tuple(f) for f in fs] for fs in cands if in_domain([tuple(f) for f in fs])]
     cands += [gen_files(rnd) for _ in range(3000)]
+    cands += [gen_unusual(rnd) for _ in range(1000)]
     for fs in cands:
         impl, _, _, snap = run_real(fs, 1)
         inp = {"stream": "search", "files": [list(f) for f in fs], "naggr": 1}
@@ -394,10 +746,24 @@ def replay(payload):
     inp = payload["input"]
     if inp.get("stream") == "pathfn":
         return True
+    if not isinstance(inp.get("files"), list):
+        print("summary of a large input only; see the oracle failure of the same run")
+        return True
     fs = [(f[0], f[1], f[2], list(f[3])) for f in inp["files"]]
     if not in_domain(fs) or inp.get("naggr", 1) != 1:
         print("input is outside the property's domain (duplicate or './' path, or not exactly one aggregate)")
         return True
+    if inp.get("stream") == "second-build":
+        bad, s2 = second_build_probe(fs)
+        if s2 is not None:
+            bad += oracle(fs, s2)
+        print("files=%r built twice -> %s" % (fs, "; ".join(bad) if bad else "all numbers agree"))
+        return not bad
+    if len(fs) > 400:
+        impl, snap, same = run_real_big(fs)
+        bad = ["raises " + impl] if snap is None else oracle_fast(fs, snap) + ([] if same else ["JSON differs from the object"])
+        print("%d files (%s) -> %s" % (len(fs), inp.get("label"), "; ".join(bad[:6]) if bad else "all numbers agree"))
+        return not bad
     impl, _, _, snap = run_real(fs, 1)
     if snap is None:
         print("files=%r -> %s" % (fs, impl))
